@@ -65,7 +65,7 @@ Definition get_special (e : env) (name : bytes) : outcome getres unit :=
   | [45] (* - *) => v <- option_string (opts e) ;; Ok (name, v, true)     (* set even when no option is *)
   | [36] (* $ *) => mk (itoa (pid e))
   | [33] (* ! *) => mk []
-  | [48] (* 0 *) => match args e with a0 :: _ => mk a0 | [] => Panic 70 end
+  | [48] (* 0 *) => match args e with a0 :: _ => Ok (name, a0, true) | [] => Panic 70 end    (* set even when the name is empty *)
   | _ => Panic 0
   end.
 
